@@ -354,7 +354,7 @@ Proof.
     { apply Forall_forall. intros y Hy. apply in_map_iff in Hy. destruct Hy as (p & E & Hp). subst.
       rewrite Forall_forall in HG. auto. }
     split.
-    + apply isort_app_const; auto. eapply Forall_impl; [|exact HG']. intros; lia.
+    + apply isort_app_const; auto. eapply Forall_impl; [|exact HG']. intros a Hlt. cbn beta in Hlt. lia.
     + destruct r as [|b r]; [congruence|]. cbn [length]. rewrite uniq_repeat_app by auto. rewrite I2. reflexivity.
 Qed.
 
@@ -377,7 +377,8 @@ Proof.
       assert (E : (fst p =? g) = false) by lia. rewrite E. auto. }
     rewrite E, app_nil_r, map_map. cbn [snd]. apply map_id.
   - assert (Hl' : length cov = length repl) by lia.
-    rewrite <- (IH repl (ascending_tail _ _ Ha) Hl') at 2.
+    transitivity (map (fun g0 => ligs_of g0 (groups cov repl)) cov);
+      [|apply (IH repl (ascending_tail _ _ Ha) Hl')].
     apply map_ext_in. intros x Hx. unfold ligs_of. rewrite filter_app.
     rewrite F2; auto. rewrite Forall_forall in HL. specialize (HL x Hx). lia.
 Qed.
